@@ -30,10 +30,14 @@ def main(argv=None) -> int:
         try:
             mod.run(chk)
         except AnalysisError as e:
-            # an anchor vanished half-way: if a violation was already established it is the verdict
-            if not chk.findings:
+            # an anchor vanished half-way: if a violation was already established it is the verdict.  Otherwise the run
+            # is broken (exit 2) on the tree the anchors were confirmed on; on a tree that differs from that snapshot the
+            # construct was rewritten in a form the rules do not recognise - nothing is claimed about the rest
+            if not chk.findings and repo.same_as_reference():
                 raise
             chk.note(f"analysis stopped early: {e}")
+            if not chk.findings:
+                chk.undecided.append(f"analysis stopped early (rules after this point were not evaluated): {str(e)[:300]}")
         return chk.finish()
     except AnalysisError as e:
         print(f"ANALYSIS-ERROR property={prop}: {e}")
